@@ -472,3 +472,15 @@ package meta
 //@     set n = n + 1
 //@   store MeasurementInfo.MarkDeleted
 //@     requires n == 3 && e0 == nil && e1 == nil && e2 == nil && val
+
+// ================================================================ C11: shard pruning by shard-key predicates
+//@ prop C11
+
+// A query is narrowed to ONE hash shard only when the condition pins EVERY tag of the shard key
+// (otherwise it is broadcast): pruning may only remove shards that cannot contain a match.
+//@ func ShardGroupInfo.TargetShards
+//@   call (*ShardGroupInfo).ShardFor
+//@     requires ski != nil && i >= len(ski.ShardKey)
+//@ func HashID
+//@   trusted xxhash of the key bytes (T-hash): a deterministic read-only function
+//@   assigns nothing
